@@ -164,6 +164,7 @@ func (cx *Ctx) readOnlyTable(g *ssa.Global) (bool, string) {
 
 func checkC15(cx *Ctx, r *Report) {
 	w, fx := cx.W, cx.Fx
+	cx.checkContextKeys(r)
 	// storage is asked with the request's context (which carries the issuer in effect)
 	cx.checkStorageContext(r)
 	r.Clauses = []string{
